@@ -170,17 +170,13 @@ impl FromStr for HandRangeToken {
             }
         }
 
-        if double_rank_pair_range_regex.is_match(s)
-            && s[0..1] == s[4..5]
-            && s[1..2] != s[5..6]
-            && s[2..3] == s[6..7]
-        {
+        if double_rank_pair_range_regex.is_match(s) && s[0..1] == s[4..5] && s[2..3] == s[6..7] {
             if let (Ok(high), Ok(kicker_top), Ok(kicker_bottom)) = (
                 Rank::from_str(&s[0..1]),
                 Rank::from_str(&s[1..2]),
                 Rank::from_str(&s[5..6]),
             ) {
-                if high < kicker_top && kicker_top < kicker_bottom {
+                if high < kicker_top && kicker_top <= kicker_bottom {
                     if &s[2..3] == "s" {
                         return Ok(HandRangeToken::new(
                             HandRangeTokenKind::DoubleClosedRankPairRange(
